@@ -1,0 +1,19 @@
+//go:build verif
+
+package dragonboat
+
+import (
+	"github.com/lni/dragonboat/v4/internal/rsm"
+)
+
+// VerifC05SessionDump returns the size and a deep copy of the client session
+// table (most recently used first) of the local replica of the shard, without
+// touching its LRU order.
+func VerifC05SessionDump(nh *NodeHost, shardID uint64) (uint64, []rsm.VerifC05Session, bool) {
+	n, ok := nh.getShard(shardID)
+	if !ok {
+		return 0, nil, false
+	}
+	c, d := n.sm.VerifC05Dump()
+	return c, d, true
+}
